@@ -17,6 +17,7 @@ w(f"//@ classdef error2 = result != nil && {K}(result) == mlrval.MT_ERROR")
 w(f"//@ classdef int0 = isI(result, 0)")
 w(f"//@ classdef float0 = isF(result, 0.0)")
 w(f"//@ classdef num2 = mlrval.IsIntVal(result) || mlrval.IsFloatVal(result) || (result != nil && {K}(result) == mlrval.MT_ERROR)")
+w(f"//@ classdef pick2 = result == input1 || result == input2")
 w(f"//@ classdef neg2 = imp(mlrval.IsIntVal(input2), isI(result, -old(iv(input2)))) && imp(mlrval.IsFloatVal(input2), isF(result, -old(fv(input2))))")
 w("// ---- classes of disposition-vector cells (unary) ----")
 w(f"//@ classdef ret1u = result == input1")
